@@ -182,7 +182,12 @@ func (c *connection) onProcess(onConnect OnConnect, onRequest OnRequest) (proces
 	if !c.lock(processing) {
 		return false
 	}
+	c.process(onConnect, onRequest)
+	return true
+}
 
+// process starts the task that runs onConnect/onRequest; the caller holds the processing lock.
+func (c *connection) process(onConnect OnConnect, onRequest OnRequest) {
 	task := func() {
 		panicked := true
 		defer func() {
@@ -272,7 +277,6 @@ func (c *connection) onProcess(onConnect OnConnect, onRequest OnRequest) (proces
 
 	// add new task
 	runner.RunTask(c.ctx, task)
-	return true
 }
 
 // closeCallback .
